@@ -18,7 +18,7 @@ EXTERNAL = {
     'time': 'time.time() returns a non-decreasing real (ghost now); time.sleep returns',
     'threading': 'Thread.start runs the target later exactly once; Event/RLock per DESIGN 2.8',
     'bisect': 'bisect_left / bisect / insort on a sorted sequence return / insert at the partition point',
-    'random': 'randrange(a, b) returns some integer of [a, b) and raises ValueError when empty; random() some real of [0, 1)',
+    'random': 'randrange(a, b) returns some integer of [a, b) and raises ValueError when empty; random() some real of [0, 1); uniform(a, b) some real between a and b, the far end-point excluded',
 }
 
 
@@ -169,8 +169,16 @@ def install(I):
         I_.assume(z3.And(r.t >= 0, r.t < 1))
         I_.ghost.setdefault('unit_draws', PyList()).items.append(r)
         return r
+    def uniform(I_, a, k):
+        # a + (b - a) * random(): some real between the two bounds (the far end-point, which CPython reaches only through
+        # floating-point rounding, is left out: assumed, see TRUSTED)
+        lo, hi = to_term(a[0], 'real'), to_term(a[1], 'real')
+        r = I_.fresh('real', 'uniform')
+        I_.assume(z3.Or(z3.And(lo <= r.t, r.t < hi), z3.And(hi < r.t, r.t <= lo), z3.And(lo == hi, r.t == lo)))
+        I_.ghost.setdefault('uniform_draws', PyList()).items.append((r, a[0], a[1]))
+        return r
     module('random', randrange=Builtin('randrange', randrange), seed=Builtin('seed', lambda I_, a, k: None),
-           random=Builtin('random', unit_random),
+           random=Builtin('random', unit_random), uniform=Builtin('uniform', uniform),
            randint=Builtin('randint', lambda I_, a, k: randrange(I_, [a[0], I_.binop('Add', a[1], 1)], k)))
 
     module('html', escape=Builtin('html.escape', lambda I_, a, k: html_escape(I_, a[0])),
